@@ -2,7 +2,7 @@
     Layout.v is the independent reader (it contains only the published layout); LayoutEnc.v states what a
     conforming writer produces.  The harness decodes every file the implementation writes with the extracted
     reader and compares with the API's report. *)
-From Bbolt Require Import Base Consts Spec Fnv Layout LayoutEnc LayoutProofs.
+From Bbolt Require Import Base Consts Spec Fnv Layout LayoutEnc LayoutProofs LayoutPageProofs.
 
 (** little-endian integers of any width round-trip at any file position *)
 Theorem C12_integer_roundtrip : forall n v pre post, v < 256 ^ N.of_nat n ->
@@ -28,3 +28,43 @@ Example C12_nonvacuous :
               m_fl := 2; m_mark := 4; m_txid := 1; m_sum := 0 |} in
   validate_at (rd_of (List.repeat 0 16 ++ enc_meta m)) 16 = MOk.
 Proof. vm_compute. reflexivity. Qed.
+
+(** a free-list page written per the published layout - header, then the ids; with 65535 or more ids the count field is
+    0xFFFF and the real count is the first u64 - reads back exactly, at any page position, for every length (both encodings) *)
+Theorem C12_freelist_page_roundtrip : forall ps pg ov ids pre post,
+  N.of_nat (length pre) = pg * ps -> (forall x, In x ids -> x < 2^64) -> N.of_nat (length ids) < 2^64 ->
+  freelist_ids (rd_of (pre ++ enc_freelist_page pg ov ids ++ post)) ps pg = ids.
+Proof. exact freelist_page_roundtrip. Qed.
+Print Assumptions C12_freelist_page_roundtrip.
+
+(** a leaf page written per the published layout (16-byte header; 16-byte elements flags/pos/ksize/vsize with pos relative to
+    the element; keys and values behind them) decodes to exactly its key/value pairs, in order and within bounds *)
+Theorem C12_leaf_page_roundtrip : forall ps fuel pg kvs pre post limit,
+  (1 <= fuel)%nat -> pg < 2^64 -> N.of_nat (length kvs) < 65536 ->
+  N.of_nat (length (enc_leaf_page pg kvs)) < 2^32 ->
+  N.of_nat (length pre) + N.of_nat (length (enc_leaf_page pg kvs)) <= limit ->
+  strictly_inc (map fst kvs) = true ->
+  let rd := rd_of (pre ++ enc_leaf_page pg kvs ++ post) in
+  let base := N.of_nat (length pre) in
+  dec_page rd ps fuel base limit false None None
+  = Some {| r_ents := map (fun kv => (fst kv, Val (snd kv))) kvs;
+            r_pages := [(pg, 0, leaf_page_flag)]; r_order := true; r_bounds := true |}.
+Proof. exact leaf_page_roundtrip. Qed.
+Print Assumptions C12_leaf_page_roundtrip.
+
+(** branch page elements (pos/ksize/pgid) read back as the separator keys and child ids that were written *)
+Theorem C12_branch_elements_roundtrip : forall pg ov kcs pre post limit,
+  pg < 2^64 -> ov < 2^32 -> N.of_nat (length kcs) < 65536 ->
+  (forall kc, In kc kcs -> snd kc < 2^64) ->
+  N.of_nat (length (enc_branch_page pg ov kcs)) < 2^32 ->
+  N.of_nat (length pre) + N.of_nat (length (enc_branch_page pg ov kcs)) <= limit ->
+  let rd := rd_of (pre ++ enc_branch_page pg ov kcs ++ post) in
+  let base := N.of_nat (length pre) in
+  u64 rd base = pg /\ u16 rd (base + 8) = branch_page_flag /\ u16 rd (base + 10) = N.of_nat (length kcs) /\
+  u32 rd (base + 12) = ov /\
+  let elems := branch_elems rd base (u16 rd (base + 10)) in
+  map (fun x => let '(kp, ks, child) := x in (rbytes rd (N.to_nat ks) kp, child)) elems = kcs /\
+  (base + 16 + 16 * u16 rd (base + 10) <=? limit) &&
+    forallb (fun x => let '(kp, ks, child) := x in kp + ks <=? limit) elems = true.
+Proof. exact branch_elems_roundtrip. Qed.
+Print Assumptions C12_branch_elements_roundtrip.
